@@ -1,16 +1,18 @@
 (* C08 — A damaged or concurrently written basis file never changes a result.
    Only statements; proofs in proofs/NpyProofs.v, proofs/FileFaultsProofs.v,
-   proofs/Cache*Proofs.v.  Models: base/Npy.v (byte-level .npy 1.0 codec as
-   numpy.save / numpy.load implement it), model/FileFaults.v (files as byte
-   lists, writers as sequences of write syscalls, interleavings, the try/except
-   handlers of the five caching modules), model/Cache*.v (cache state machines
-   with the order of global assignments relative to the raising points). *)
+   proofs/Cache*Proofs.v, proofs/CacheRbasexInv.v.  Models: base/Npy.v
+   (byte-level .npy 1.0 codec as numpy.save / numpy.load implement it),
+   model/FileFaults.v (files as byte lists, writers as sequences of syscalls,
+   interleavings, the atomic temp-file + rename save of fix 46921c4, the
+   try/except handlers and shape checks of the five caching modules),
+   model/Cache*.v (cache state machines of the FIXED code, with the order of
+   global assignments relative to the raising points). *)
 From Coq Require Import List NArith Arith Bool.
 From PA Require Import base.Npy model.CacheCommon model.FileFaults
   proofs.NpyProofs proofs.FileFaultsProofs.
 From PA Require model.CacheBasex model.CacheDaun model.CacheDasch model.CacheLinbasex model.CacheRbasex
   proofs.CacheBasexProofs proofs.CacheDaunProofs proofs.CacheDaschProofs proofs.CacheLinbasexProofs
-  proofs.CacheRbasexProofs.
+  proofs.CacheRbasexProofs proofs.CacheRbasexInv.
 Import ListNotations.
 
 (* ---- the codec ------------------------------------------------------------- *)
@@ -37,41 +39,57 @@ Example C08_hypotheses_satisfiable :
 Proof. vm_compute. repeat split; repeat constructor. Qed.
 
 (* ---- handlers ---------------------------------------------------------------- *)
-(* whatever does not parse (missing content, empty, truncated, garbage, zip
-   prefix) never yields other numbers; basex / daun / rbasex repair the
-   ValueError class by regenerating and re-saving, dasch / linbasex raise *)
-Theorem C08_fault_outcome : forall m right fits unp f,
+(* whatever does not parse (empty, truncated, garbage, zip prefix) never yields
+   other numbers; basex / daun / rbasex repair the ValueError class by
+   regenerating and re-saving, dasch / linbasex raise *)
+Theorem C08_fault_outcome : forall m right sok f,
   is_err (parse f) = true ->
-  load_outcome m right fits unp f <> Different /\
+  load_outcome m right sok f <> Different /\
   (parse f = PErr PValue -> catches_value_error m = true ->
-     load_outcome m right fits unp f = Fresh /\ resaved m f = true) /\
+     load_outcome m right sok f = Fresh /\ resaved m f = true) /\
   (parse f <> PErr PValue \/ catches_value_error m = false ->
-     load_outcome m right fits unp f = Exception /\ resaved m f = false).
+     load_outcome m right sok f = Exception /\ resaved m f = false).
 Proof. exact fault_outcome. Qed.
 Print Assumptions C08_fault_outcome.
 
-Theorem C08_crash_point_outcome : forall m right fits unp a k,
+Theorem C08_crash_point_outcome : forall m right sok a k,
   wf_arr a -> hlen (shape a) / 256 < 256 -> k < length (serialize a) ->
-  load_outcome m right fits unp (firstn k (serialize a)) =
+  load_outcome m right sok (firstn k (serialize a)) =
     (if k =? 0 then Exception else if catches_value_error m then Fresh else Exception).
 Proof. exact crash_point_outcome. Qed.
 Print Assumptions C08_crash_point_outcome.
 
-Theorem C08_wrong_shape_outcome : forall m right fits unp f a,
-  parse f = POk a -> right a = false -> fits a = false ->
-  load_outcome m right fits unp f <> Different.
+(* a valid file whose shape is not what its name promises is ignored *)
+Theorem C08_wrong_shape_outcome : forall m right sok f a,
+  parse f = POk a -> sok a = false -> load_outcome m right sok f = Fresh.
 Proof. exact wrong_shape_outcome. Qed.
 Print Assumptions C08_wrong_shape_outcome.
 
 (* ---- concurrent writers -------------------------------------------------------- *)
+(* the save of the library (temp file of its own + os.replace), each writer
+   with ANY number of write syscalls, any number of writers, every schedule: a
+   reader sees what was there before, or the complete new file *)
+Theorem C08_atomic_save_safe : forall a t0 procs sched t,
+  Forall (is_atomic_save a) procs -> In t (aobserved t0 procs sched) -> t = t0 \/ t = Some (serialize a).
+Proof. exact atomic_save_safe. Qed.
+Print Assumptions C08_atomic_save_safe.
+
+Theorem C08_atomic_save_read : forall a procs sched f,
+  wf_arr a -> hlen (shape a) / 256 < 256 ->
+  Forall (is_atomic_save a) procs -> In (Some f) (aobserved None procs sched) -> parse f = POk a.
+Proof. exact atomic_save_read. Qed.
+Print Assumptions C08_atomic_save_read.
+
+(* sensitivity: writing IN PLACE is safe only with at most two writes ... *)
 Theorem C08_two_chunk_interleaving_safe : forall a, wf_arr a -> hlen (shape a) / 256 < 256 ->
   forall procs sched f,
     Forall (is_save a) procs -> In f (observed procs [] sched) -> safe_read a f.
 Proof. intros a H1 H2. exact (two_chunk_interleaving_safe a H1 H2). Qed.
 Print Assumptions C08_two_chunk_interleaving_safe.
 
-(* sensitivity of the chunk-count assumption (not a finding: numpy.save issues
-   two writes; the check measures this with strace on every run) *)
+(* ... and numpy.save needs three (header, bulk, tail): a non-atomic writer
+   admits a schedule in which the file parses to a different array.  This is
+   why the check demands, on every run, that basis files appear by rename *)
 Theorem C08_three_chunk_interleaving_refuted :
   exists (a : arr) (k : nat) (sched : list nat) (f : file) (b : arr),
     wf_arr a /\ hlen (shape a) / 256 < 256 /\
@@ -80,86 +98,60 @@ Theorem C08_three_chunk_interleaving_refuted :
 Proof. exact three_chunk_interleaving_refuted. Qed.
 Print Assumptions C08_three_chunk_interleaving_refuted.
 
-(* ---- whole histories with damaged files: the cache state machines ---------------- *)
-(* basex and daun: with any damaged files seeded anywhere in the history,
-   every call returns the fresh result or raises — also AFTER a raising call,
-   after the file was removed or re-saved (no hazard = no wrong-shape valid
-   file, no unwritable directory; daun: no larger cubic basis on disk) *)
-Theorem C08_basex_fault_safe : forall ops,
-  CacheBasex.no_hazard CacheBasex.init ops = true -> CacheBasex.all_safe CacheBasex.init ops = true.
-Proof. exact CacheBasexProofs.fault_safe. Qed.
-Print Assumptions C08_basex_fault_safe.
-
+(* ---- whole histories with damaged and wrong-shape files: the state machines ---------- *)
+(* with damaged (empty / truncated / garbage / zip) and wrong-shape files seeded
+   anywhere in the history, every call returns the fresh result or raises —
+   also AFTER a raising call and after the file was removed or re-saved *)
 Theorem C08_daun_fault_safe : forall ops,
   CacheDaun.no_hazard CacheDaun.init ops = true -> CacheDaun.all_safe CacheDaun.init ops = true.
 Proof. exact CacheDaunProofs.fault_safe. Qed.
 Print Assumptions C08_daun_fault_safe.
 
-(* dasch and linbasex: safe up to and including the first call that raises *)
-Theorem C08_dasch_fault_safe_partial : forall ops,
-  CacheDasch.no_hazard CacheDasch.init ops = true ->
-  CacheDasch.safe_until_raise CacheDasch.init ops = true.
-Proof. exact CacheDaschProofs.fault_safe_until_raise. Qed.
-Print Assumptions C08_dasch_fault_safe_partial.
+Theorem C08_dasch_fault_safe : forall ops,
+  CacheDasch.no_hazard CacheDasch.init ops = true -> CacheDasch.all_safe CacheDasch.init ops = true.
+Proof. exact CacheDaschProofs.fault_safe. Qed.
+Print Assumptions C08_dasch_fault_safe.
 
-Theorem C08_linbasex_fault_safe_partial : forall ops,
-  CacheLinbasex.no_hazard CacheLinbasex.init ops = true ->
-  CacheLinbasex.safe_until_raise CacheLinbasex.init ops = true.
-Proof. exact CacheLinbasexProofs.fault_safe_until_raise. Qed.
-Print Assumptions C08_linbasex_fault_safe_partial.
+Theorem C08_linbasex_fault_safe : forall ops,
+  CacheLinbasex.no_hazard CacheLinbasex.init ops = true -> CacheLinbasex.all_safe CacheLinbasex.init ops = true.
+Proof. exact CacheLinbasexProofs.fault_safe. Qed.
+Print Assumptions C08_linbasex_fault_safe.
 
-(* ... and not after it (findings): the key/method name is assigned before the
-   unguarded np.load, so after the damaged file is removed the next call uses
-   the OLD operator / basis for the NEW request *)
-Theorem C08_dasch_after_fault_refuted :
-  CacheDasch.no_hazard CacheDasch.init (CacheDaschProofs.poison_hist ++ [CacheDaschProofs.poison_call]) = true /\
-  res_code (CacheDasch.last_result CacheDaschProofs.poison_hist CacheDaschProofs.poison_call) = 0 /\
-  CacheDaschProofs.den_out (CacheDasch.last_result CacheDaschProofs.poison_hist CacheDaschProofs.poison_call)
-    <> CacheDaschProofs.den_out (CacheDasch.fresh CacheDaschProofs.poison_call).
-Proof. exact CacheDaschProofs.failed_load_poisons_refuted. Qed.
-Print Assumptions C08_dasch_after_fault_refuted.
+Theorem C08_rbasex_fault_safe : forall ops,
+  CacheRbasex.no_hazard CacheRbasex.init ops = true -> CacheRbasex.all_safe CacheRbasex.init ops = true.
+Proof. exact CacheRbasexInv.fault_safe. Qed.
+Print Assumptions C08_rbasex_fault_safe.
 
-Theorem C08_linbasex_after_fault_refuted :
-  CacheLinbasex.no_hazard CacheLinbasex.init CacheLinbasexProofs.poison_hist = true /\
-  res_code (CacheLinbasex.last_result CacheLinbasexProofs.poison_hist CacheLinbasexProofs.poison_call) = 0 /\
-  CacheLinbasexProofs.den_out (CacheLinbasex.last_result CacheLinbasexProofs.poison_hist CacheLinbasexProofs.poison_call)
-    <> CacheLinbasexProofs.den_out (CacheLinbasex.fresh CacheLinbasexProofs.poison_call).
-Proof. exact CacheLinbasexProofs.failed_load_poisons_refuted. Qed.
-Print Assumptions C08_linbasex_after_fault_refuted.
+(* basex: _partial because the model's wrong-shape file is one that cannot be
+   used as the block to extend (np.zeros((2, 1, 1000))): get_bs_cached still
+   loads the LARGEST existing file of the same sigma without a shape check in
+   order to extend it, so a wrong-shape file that fits into the requested
+   basis is used silently (remaining finding C08:basex:wrong-shape-file-extended,
+   exhibited by the directed probe of tools/props/C08.py) *)
+Theorem C08_basex_fault_safe_partial : forall ops,
+  CacheBasex.no_hazard CacheBasex.init ops = true -> CacheBasex.all_safe CacheBasex.init ops = true.
+Proof. exact CacheBasexProofs.fault_safe. Qed.
+Print Assumptions C08_basex_fault_safe_partial.
 
-(* rbasex: an empty file (EOFError is not caught) after _bs_prm was assigned *)
-Theorem C08_rbasex_after_fault_refuted :
-  res_code (CacheRbasex.last_result CacheRbasexProofs.fl_hist CacheRbasexProofs.fl_call) = 0 /\
-  res_code (CacheRbasex.fresh CacheRbasexProofs.fl_call) = 0 /\
-  CacheRbasex.out_eqv (CacheRbasex.last_result CacheRbasexProofs.fl_hist CacheRbasexProofs.fl_call)
-                      (CacheRbasex.fresh CacheRbasexProofs.fl_call) = false.
-Proof. exact (proj2 CacheRbasexProofs.failed_load_poisons_refuted). Qed.
-Print Assumptions C08_rbasex_after_fault_refuted.
-
-(* valid files of a wrong shape: basex (F8), daun and rbasex keep the junk in
-   memory under the right key — the call keeps raising after the file is
-   removed; linbasex uses the file without any check *)
-Theorem C08_basex_wrong_shape_sticks_partial :
-  res_code (CacheBasex.last_result CacheBasexProofs.ws_hist CacheBasexProofs.ws_call) = 1 /\
-  res_code (CacheBasex.fresh CacheBasexProofs.ws_call) = 0.
-Proof. exact CacheBasexProofs.wrong_shape_sticks. Qed.
-Print Assumptions C08_basex_wrong_shape_sticks_partial.
-
-Theorem C08_daun_wrong_shape_sticks_partial :
-  res_code (CacheDaun.last_result CacheDaunProofs.ws_hist CacheDaunProofs.ws_call) = 1 /\
-  res_code (CacheDaun.fresh CacheDaunProofs.ws_call) = 0.
-Proof. exact CacheDaunProofs.wrong_shape_sticks. Qed.
-Print Assumptions C08_daun_wrong_shape_sticks_partial.
-
-Theorem C08_rbasex_wrong_shape_sticks_partial :
-  0 <? res_code (CacheRbasex.last_result CacheRbasexProofs.ws_hist (CacheRbasexProofs.ws_call [])) = true /\
-  res_code (CacheRbasex.fresh (CacheRbasexProofs.ws_call [])) = 0.
-Proof. exact CacheRbasexProofs.wrong_shape_sticks. Qed.
-Print Assumptions C08_rbasex_wrong_shape_sticks_partial.
-
-Theorem C08_linbasex_wrong_shape_used_refuted :
-  res_code (CacheLinbasex.last_result CacheLinbasexProofs.ws_hist CacheLinbasexProofs.ws_call) = 0 /\
-  CacheLinbasexProofs.den_out (CacheLinbasex.last_result CacheLinbasexProofs.ws_hist CacheLinbasexProofs.ws_call)
-    <> CacheLinbasexProofs.den_out (CacheLinbasex.fresh CacheLinbasexProofs.ws_call).
-Proof. exact CacheLinbasexProofs.wrong_shape_used_refuted. Qed.
-Print Assumptions C08_linbasex_wrong_shape_used_refuted.
+(* the histories of the former findings: after the damaged file made a call
+   raise and was removed the next call is fresh; wrong-shape files are ignored *)
+Example C08_former_findings :
+  CacheDasch.out_eqv (CacheDasch.last_result CacheDaschProofs.poison_hist CacheDaschProofs.poison_call)
+                     (CacheDasch.fresh CacheDaschProofs.poison_call) = true /\
+  CacheLinbasex.out_eqv (CacheLinbasex.last_result CacheLinbasexProofs.poison_hist CacheLinbasexProofs.poison_call)
+                        (CacheLinbasex.fresh CacheLinbasexProofs.poison_call) = true /\
+  CacheRbasexProofs.agrees [CacheRbasex.Call CacheRbasexProofs.oddcall; CacheRbasex.Seed 1 CacheRbasexProofs.k44i (FBad PEOF);
+                            CacheRbasex.Call (CacheRbasexProofs.o4call [CacheRbasexProofs.k44i]);
+                            CacheRbasex.Remove 1 CacheRbasexProofs.k44i]
+                           (CacheRbasex.Call (CacheRbasexProofs.o4call [])) = true /\
+  CacheBasex.out_eqv (CacheBasex.last_result CacheBasexProofs.ws_hist CacheBasexProofs.ws_call)
+                     (CacheBasex.fresh CacheBasexProofs.ws_call) = true /\
+  CacheDaun.out_eqv (CacheDaun.last_result CacheDaunProofs.ws_hist CacheDaunProofs.ws_call)
+                    (CacheDaun.fresh CacheDaunProofs.ws_call) = true.
+Proof.
+  split; [exact (proj2 CacheDaschProofs.failed_load_harmless)|].
+  split; [exact CacheLinbasexProofs.failed_load_harmless|].
+  split; [exact (proj2 CacheRbasexProofs.failed_load_harmless)|].
+  split; [exact (proj1 CacheBasexProofs.wrong_shape_regenerated)|].
+  exact (proj1 (proj2 CacheDaunProofs.wrong_shape_regenerated)).
+Qed.
